@@ -64,7 +64,13 @@ struct Spec {
 int pred_parked(void *arg) { return vs_thread_waiting((int)(long)arg); }
 int pred_barrier(void *arg) { return vs_cell_get(CELL_BARRIER) >= (long)arg; }
 
+// plain data that the lock is supposed to protect: written inside write sections, read inside read sections.  In the race pass (tsan flavour) a reader that shares
+// the lock with a writer shows up as a data race on it.
+int g_protected;
+void touch_protected(char op) { if (op == 'W') g_protected++; else { volatile int v = g_protected; (void)v; } }
+
 void enter(char op) {
+    touch_protected(op);
     if (op == 'R') {
         long r = vs_cell_add(CELL_READERS, 1);
         (void)r;
